@@ -673,7 +673,7 @@ def run(tier: str, replay=None) -> int:
                 viol.append(dict(pay, what=f"token {a} classified as {c}, expected {want_class[a]}"))
         if ref == "none":
             # the reference parser (C's rules) rejects the text, Lark accepts it
-            if semi_accepts_non_c(tl):
+            if semi_accepts_non_c(tl) and any(k_["id"] == "C17-compound-optional-semicolon" for k_ in known_for(PROP)):
                 sc["optional_semicolon_accepts_non_C"] += 1
                 if semi_witness is None or len(txt) < len(semi_witness):
                     semi_witness = txt
@@ -687,12 +687,15 @@ def run(tier: str, replay=None) -> int:
         if got == ref:
             sc["agree"] += 1
             sc["dangling_shape_but_trees_agree"] += dg != 0
-        elif got == drop_semi(ref):
+        elif got == drop_semi(ref) and any(k_["id"] == "C17-compound-optional-semicolon" for k_ in known_for(PROP)):
             sc["optional_semicolon_after_block"] += 1
             if semi_witness is None or len(txt) < len(semi_witness):
                 semi_witness = txt
+        elif kw and not any(k_["id"] == "C17-keyword-as-identifier" for k_ in known_for(PROP)):
+            # a reserved word taken as an identifier (`if (c) ;` -> call of "if"): repaired in /repo, a violation if it returns
+            viol.append(dict(pay, what="a statement keyword is parsed as an identifier: Lark's statement tree differs from the C-structured tree",
+                             lark_tree=got, reference_tree=ref))
         elif kw:
-            # candidate finding: a reserved word was taken as an identifier (`if (c) ;` -> call of "if", `else ;` -> identifier)
             sc["keyword_as_identifier"] += 1
             sc["keyword_as_identifier_explained_by_if_call"] += got in (if_call(ref), drop_semi(if_call(ref)))
             if kw_witness is None or len(txt) < len(kw_witness):
